@@ -198,9 +198,13 @@ def gen_invocation(rng: random.Random, files_now: list[str], forced: tuple[str, 
         inv["stdin"] = b2j(stdin_doc)
         inv["output"] = out
     elif form == "multi_stdout":
+        if rng.random() < 0.08:
+            several = several + [several[0]]  # the same file named twice: processed twice
         inv["argv"] = place([], several)
         inv["files"] = several
     elif form == "multi_inplace":
+        if rng.random() < 0.08:
+            several = several + [several[0]]
         nb = rng.random() < 0.5 if force_nb is None else force_nb
         inv["argv"] = place(["-i"] + (["--nobackup"] if nb else []), several)
         inv["files"] = several
@@ -235,6 +239,7 @@ def gen_invocation(rng: random.Random, files_now: list[str], forced: tuple[str, 
         elif kind == "stdin_stdout":
             api["path"] = "-"
             inv["stdin"] = b2j(stdin_doc)
+        api["as_path"] = rng.random() < 0.3
         inv["api"] = api
     elif form == "api_files":
         kind = rng.choice(["stdout", "inplace", "inplace_nobackup", "err_output_multi", "stdin_single_output"])
@@ -311,7 +316,7 @@ def gen_case(run_seed: int, tier: str, index: int | None = None) -> dict[str, An
     w = sub_rng(run_seed, "workload")
     names = list(DOC_NAMES)
     w.shuffle(names)
-    names = sorted(names[: w.randint(2, 5)])
+    names = sorted(names[: w.randint(2, 5) if w.random() < 0.9 else w.randint(6, 9)])
     tree: dict[str, Any] = {n: {"f": b2j(gen_doc_bytes(w))} for n in names}
     for n in names:
         # some documents start out as fixed points of the first invocation's formatting (the
@@ -597,6 +602,7 @@ def predict(model: Model, inv: dict[str, Any], M: dict[str, bytes]) -> Pred:
         elif kind == "stdin_stdout":
             api["path"] = "-"
             inv["stdin"] = b2j(stdin_doc)
+        api["as_path"] = rng.random() < 0.3
         inv["api"] = api
     elif form == "api_files":
         kind = rng.choice(["stdout", "inplace", "inplace_nobackup", "err_output_multi", "stdin_single_output"])
@@ -673,7 +679,7 @@ def gen_case(run_seed: int, tier: str, index: int | None = None) -> dict[str, An
     w = sub_rng(run_seed, "workload")
     names = list(DOC_NAMES)
     w.shuffle(names)
-    names = sorted(names[: w.randint(2, 5)])
+    names = sorted(names[: w.randint(2, 5) if w.random() < 0.9 else w.randint(6, 9)])
     tree: dict[str, Any] = {n: {"f": b2j(gen_doc_bytes(w))} for n in names}
     for n in names:
         # some documents start out as fixed points of the first invocation's formatting (the
@@ -1061,7 +1067,13 @@ def make_fn(inv: dict[str, Any]) -> Any:
         o = dict(o0)
         o["list_spacing"] = ListSpacing(o["list_spacing"])
         if api["fn"] == "reformat_file":
-            flowmark.reformat_file(api["path"], api["output"], inplace=api["inplace"], nobackup=api["nobackup"], **o)
+            pth, outp = api["path"], api["output"]
+            if api.get("as_path"):  # pathlib.Path objects instead of str (except the '-' markers)
+                from pathlib import Path
+
+                pth = Path(pth) if pth != "-" else pth
+                outp = Path(outp) if outp not in (None, "-") else outp
+            flowmark.reformat_file(pth, outp, inplace=api["inplace"], nobackup=api["nobackup"], **o)
         else:
             reformat_files(api["files"], api["output"], inplace=api["inplace"], nobackup=api["nobackup"], **o)
         return 0
